@@ -198,7 +198,7 @@ def tree_case(rng, kind="tree"):
     if kind == "cmtafter":
         _add_comments(rng, tree, safe=False)
     text = render(rng, tree, style)
-    return mk(kind, text.split("\n"), op="conv" if kind == "tree" else "txt", tree=tree, style=style)
+    return mk(kind, text.split("\n"), op="conv", tree=tree, style=style)
 
 
 def _walk(tree):
@@ -237,8 +237,8 @@ def drop_case(rng):
         if pos:
             p = rng.choice(pos)
             text2 = text[:p] + text[p + 1:]
-            return mk("drop", text2.split("\n"), op="txt", tree=c["tree"], style=c["style"], dropped=p)
-    return mk("drop", ["a {", "b;"], op="txt", tree=[["a"], [["b"], []]], style="junos", dropped=0)
+            return mk("drop", text2.split("\n"), op="conv", tree=c["tree"], style=c["style"], dropped=p)
+    return mk("drop", ["a {", "b;"], op="conv", tree=[["a"], [["b"], []]], style="junos", dropped=0)
 
 
 SOUP = ['{', '}', '{', '}', ' ', ' ', '\t', '"', "'", ';', '\\', 'x', 'a', '1', 'f', 'g', '#', '\n', '\r', '\x0b',
@@ -254,7 +254,7 @@ def soup_case(rng):
     if rng.random() < 0.6:
         txt = 'h {' + txt + '}'
     lines = txt.split('\n') if rng.random() < 0.7 else [txt]
-    return mk("adversarial", lines, op="txt")
+    return mk("adversarial", lines, op="conv")
 
 
 HAND = [[""], ["", ""], [";"], ["a {", ";", "}"], ['"k 1" value;'], ['x "a""'], ['"a""'], ['"a\\', 'b" c'], ["a\tb;\t"],
@@ -266,7 +266,7 @@ HAND = [[""], ["", ""], [";"], ["a {", ";", "}"], ['"k 1" value;'], ['x "a""'], 
 def cases(rng, tier):
     if tier != "search":
         for h in HAND:
-            yield mk("adversarial", h, op="txt")
+            yield mk("adversarial", h, op="conv")
         yield mk("adversarial", [], op="txt")
         for fn in FIXTURES:
             path = os.path.join(FIXDIR, fn)
@@ -296,7 +296,7 @@ def neighbours(case, rng):
             del s[rng.randrange(len(s))]
         else:
             s.insert(rng.randrange(len(s) + 1), rng.choice(SOUP[:18]))
-        yield mk("adversarial", "".join(s).split("\n"), op="txt")
+        yield mk("adversarial", "".join(s).split("\n"), op="conv")
 
 
 def _canonical_layout(case):
